@@ -301,8 +301,10 @@ def session_digest(schema):
 
 def logged_outcome(got_spec_tree, got):
     if got["r"] == "ok":
-        return {"r": "ok", "kind": "", "tree": got_spec_tree}
-    return {"r": "err", "kind": got["kind"], "tree": {"type": "", "name": "", "attrs": []}}
+        return {"r": "ok", "kind": "", "line": 0, "tree": got_spec_tree}
+    line = got.get("line")
+    return {"r": "err", "kind": got["kind"], "line": line if isinstance(line, int) and not isinstance(line, bool) else -1,
+            "tree": {"type": "", "name": "", "attrs": []}}
 
 
 def validate_sessions(chk, sc, sessions, describe, timeout=3000):
